@@ -283,6 +283,7 @@ type verifPlExec struct {
 	shadow    *verifPlMachine
 	last      []action
 	delivered map[string]uint64 // r.p.s.sender.value -> weight of the last such vote delivered as verified (kept for other harnesses)
+	offRound  map[string]bool // value ids whose payload was delivered as payloadVerified while the player was in ANOTHER round (outside RunOK)
 	deliveredW map[string]map[uint64]bool // r.p.s.sender.value -> all weights with which such a vote was delivered as verified
 	nEnsure   int
 	nBundle   int
@@ -693,6 +694,7 @@ func (x *verifPlExec) record(r, p, s, sender, value, weight uint64) {
 	x.delivered[k] = weight
 	if x.deliveredW == nil {
 		x.deliveredW = map[string]map[uint64]bool{}
+		x.offRound = map[string]bool{}
 	}
 	if x.deliveredW[k] == nil {
 		x.deliveredW[k] = map[uint64]bool{}
@@ -874,11 +876,20 @@ func (x *verifPlExec) c03(a ensureAction) string {
 		return "BAD:step"
 	}
 	blk := a.Payload.Block
-	if c.claimsToAuthenticate(blk) != nil {
-		return "BAD:claimsToAuthenticate"
-	}
-	if c.Round != blk.Round() || c.Proposal.BlockDigest != blk.Digest() {
-		return "BAD:round-digest"
+	// ensure_cert_valid's hypothesis RunOK: a payloadVerified is a block of the player's round (proposal.validate checks
+	// entry.Round() == current; the router itself does not).  The generator also delivers validated payloads of other rounds
+	// (replays, shifted copies, next-round pipelining); for those the round equality is outside the claim, the rest is checked.
+	if x.offRound[x.y.valueID(a.Payload.value())] {
+		if c.Proposal.BlockDigest != blk.Digest() {
+			return "BAD:digest"
+		}
+	} else {
+		if c.claimsToAuthenticate(blk) != nil {
+			return "BAD:claimsToAuthenticate"
+		}
+		if c.Round != blk.Round() || c.Proposal.BlockDigest != blk.Digest() {
+			return "BAD:round-digest"
+		}
 	}
 	if c.Proposal != a.Payload.value() {
 		return "BAD:value"
@@ -904,6 +915,7 @@ func (x *verifPlExec) exec(op string) string {
 		x.last = nil
 		x.delivered = map[string]uint64{}
 		x.deliveredW = map[string]map[uint64]bool{}
+		x.offRound = map[string]bool{}
 		return "ok"
 	case "dump":
 		if x.live == nil {
@@ -944,6 +956,12 @@ func (x *verifPlExec) exec(op string) string {
 	e := x.event(f)
 	if e == nil {
 		return "bad-op"
+	}
+	if f[0] == "pl" && f[1] == "1" && f[2] != "1" && f[2] != "2" && x.live != nil && uint64(x.live.plyr.Round) != vh.U(f[4]) {
+		if x.offRound == nil {
+			x.offRound = map[string]bool{}
+		}
+		x.offRound[f[3]] = true
 	}
 	out, as := x.runOne(&x.live, e)
 	x.last = as
